@@ -4,9 +4,11 @@ import NGF.Proofs.Order
 import NGF.Proofs.Listeners
 import NGF.Generated.OrderFacts
 import NGF.Props.C14Pipeline
+import NGF.Props.C14Layers
 /-
 (NGF.Props.C14Pipeline: permutation / arrival-order invariance of the pipeline fragment model `Pipeline.gen` —
-`winner_perm`, `gen_perm_equiv`, `gen_perm_meaning`, `gen_servers_distinct`, `gen_locs_distinct`; own obligations call.)
+`winner_perm`, `gen_perm_equiv`, `gen_perm_meaning`, `gen_servers_distinct`, `gen_locs_distinct`; own obligations call.
+ NGF.Props.C14Layers: the same for the layered models — references, endpoints, TLS, statuses, renderer port order; own obligations call.)
 -/
 /-
 C14 — conflicts resolve by age then namespace/name, independent of arrival and map iteration order.
